@@ -45,3 +45,43 @@ func VerifPrintOptions(elem protoreflect.Descriptor) ([]VerifOption, error) {
 	}
 	return out, nil
 }
+
+// VerifOptionTree is one option of an element before parseOption simplifies
+// it: the keys OptionsFor sorts by, the extension's name as contextRefName
+// prints it from the element, and the value tree WalkOptionField builds.
+type VerifOptionTree struct {
+	Line     int32
+	HasLine  bool
+	Index    int
+	FullName string
+	RefName  string
+	Root     optionreflect.OptionField
+}
+
+// VerifOptionTrees lists the options of one element in OptionsFor order.
+func VerifOptionTrees(elem protoreflect.Descriptor) ([]VerifOptionTree, error) {
+	var extensions *optionreflect.Builder
+	opts, err := extensions.OptionsFor(elem)
+	if err != nil {
+		return nil, err
+	}
+	out := make([]VerifOptionTree, 0, len(opts))
+	for _, opt := range opts {
+		name, err := contextRefName(opt.Context, opt.RootType)
+		if err != nil {
+			return nil, err
+		}
+		tree := VerifOptionTree{
+			Index:    opt.Desc.Index(),
+			FullName: string(opt.Desc.FullName()),
+			RefName:  name,
+			Root:     optionreflect.WalkOptionField(opt.Desc, opt.Value),
+		}
+		if opt.SourceLocation != nil {
+			tree.Line = opt.SourceLocation.StartLine
+			tree.HasLine = true
+		}
+		out = append(out, tree)
+	}
+	return out, nil
+}
